@@ -841,6 +841,11 @@ class Machine:
                 v = self.copy_value(self.load(v))
             self.store(loc, v)
             return loc
+        if kind == 'BinaryOperator' and node.get('opcode') == ',':
+            lhs, rhs = [c for c in node.get('inner', []) if 'kind' in c]
+            self.rv_any(lhs)
+            v = self.rv_any(rhs)
+            return v if isinstance(v, Loc) else self.new_temp(v, 'comma')
         if kind == 'CXXDefaultArgExpr':
             raise Unsupported('default argument as lvalue')
         raise Unsupported(f'lvalue of {kind}')
@@ -944,6 +949,9 @@ class Machine:
                 if self.decide(lt):
                     return True
                 return self.truth(self.rv(rhs))
+            if op == ',':
+                self.rv_any(lhs)
+                return self.rv_any(rhs)
             if op == '+':
                 a, b = self.rv(lhs), self.rv(rhs)
                 if isinstance(a, Loc):
@@ -976,6 +984,9 @@ class Machine:
         if kind == 'CXXScalarValueInitExpr':
             return 0
         raise Unsupported(f'rvalue of {kind}')
+
+    def rv_any(self, node):
+        return self.lv(node) if node.get('valueCategory') in ('lvalue', 'xvalue') else self.rv(node)
 
     def _lv_as_rv(self, node):
         if node.get('kind') == 'StringLiteral':
